@@ -54,6 +54,7 @@ class Model:
         self._build_singletons()
         self._build_overrides()
         self._build_facade()
+        self._build_overrides_by_evaluation()
 
     # ------------------------------------------------------------------ schemas
     def _build_schemas(self) -> None:
@@ -185,6 +186,35 @@ class Model:
                 fn = self.prog.resolve_expr(mod, args[1])
                 if dunder:
                     self.overrides[dunder] = (fn, mod, st)
+
+    def _build_overrides_by_evaluation(self) -> None:
+        """The installation may go through a helper (`_install(Schema, {"__or__": union})`): evaluate the top-level call
+        statements of the modules that mention __override__ and collect the calls that reach Schema.__override__."""
+        from .engine import Interp
+        from .interp import Frame
+        from .values import Const, FuncV
+        for mod in self.prog.modules.values():
+            src_mentions = any(isinstance(n, ast.Attribute) and n.attr == "__override__" for st in mod.toplevel for n in ast.walk(st))
+            if not src_mentions:
+                continue
+            for st in mod.toplevel:
+                if not (isinstance(st, ast.Expr) and isinstance(st.value, ast.Call)):
+                    continue
+                if isinstance(st.value.func, ast.Attribute) and st.value.func.attr == "__override__" \
+                        and any(v[2] is st for v in self.overrides.values()):
+                    continue            # the direct form was read above
+                try:
+                    it = Interp(self.prog, self, unroll=4)
+                    paths = it.run_paths(lambda i, st=st, mod=mod: i.eval(st.value, Frame(None, mod, {})), max_paths=50)
+                except Exception:
+                    continue
+                for p in paths:
+                    for e in p.events:
+                        if e.kind == "call" and str(e.data.get("callee", "")).endswith(f"{self.schema_base.name}.__override__"):
+                            a = e.data.get("args") or []
+                            if len(a) == 2 and isinstance(a[0], Const) and isinstance(a[0].value, str) and isinstance(a[1], FuncV) \
+                                    and a[0].value not in self.overrides:
+                                self.overrides[a[0].value] = (a[1].func, mod, st)
 
     def _build_facade(self) -> None:
         fac = self.prog.cls("declaration._schema_facade.SchemaFacade")
